@@ -208,7 +208,9 @@ func (fv *FuncVC) evalSpec(env *SpecEnv, e SExpr) Val {
 		}
 		fv.binderDepth++
 		fv.sideStack = append(fv.sideStack, nil)
+		fv.forallStack = append(fv.forallStack, x.Forall)
 		body := fv.evalSpec(ne, x.Body).One()
+		fv.forallStack = fv.forallStack[:len(fv.forallStack)-1]
 		// instances of the post-conditions of pure functions applied to the bound variables
 		if sides := fv.sideStack[len(fv.sideStack)-1]; len(sides) > 0 {
 			if x.Forall {
@@ -832,7 +834,9 @@ func (fv *FuncVC) selectField(st *State, base Val, name string) Val {
 		ft := s.Field(idx).Type()
 		var nv Val
 		if curPtr {
-			nv = fv.load(st, &Addr{Kind: AField, Base: cur.C[0], StructT: curT, Field: idx, T: ft})
+			fa := &Addr{Kind: AField, Base: cur.C[0], StructT: curT, Field: idx, T: ft}
+			nv = fv.load(st, fa)
+			fv.boundLoadFacts(nv, ft, st, fa)
 			// embedded struct by value inside a pointer: keep addressing through fld term for nested selection
 			if isStructLike(ft) {
 				nv = Val{T: types.NewPointer(ft), C: []string{fv.fldTerm(curT, idx, cur.C[0])}}
@@ -879,6 +883,7 @@ func (fv *FuncVC) evalIndex(env *SpecEnv, x *SIndex) Val {
 		v := fv.load(st, a)
 		v.T = t.Elem()
 		v.St = base.St
+		fv.boundLoadFacts(v, t.Elem(), st, a)
 		return v
 	case *types.Map:
 		// Go semantics: zero value when the key is absent (or the map is nil)
@@ -1053,6 +1058,17 @@ func (fv *FuncVC) evalCall(env *SpecEnv, x *SCall) Val {
 			// fresh(p): p was allocated during the call
 			v := fv.evalSpec(env, x.Args[0])
 			return boolVal(fmt.Sprintf("(and (>= %s %s) (< %s %s))", v.C[0], env.old.cnt, v.C[0], env.cur.cnt))
+		case "deref":
+			// deref(p): the value a pointer to a non-struct type points at, in the state at hand
+			v := fv.evalSpec(env, x.Args[0])
+			pt, ok := v.T.Underlying().(*types.Pointer)
+			if !ok {
+				engineErr("deref of a non-pointer")
+			}
+			r := fv.load(fv.stateOf(env, v), fv.addrOf(v.One(), pt.Elem()))
+			r.T = pt.Elem()
+			r.St = v.St
+			return r
 		case "refid":
 			// refid(p): the allocation number of the object a pointer (or the pointer held by an interface value) denotes;
 			// objects allocated later have larger numbers
@@ -1613,4 +1629,38 @@ func (fv *FuncVC) pureEnsuresInstance(env *SpecEnv, fn *ssa.Function, con *Contr
 	if len(fv.sideStack) > 0 {
 		fv.sideStack[len(fv.sideStack)-1] = append(fv.sideStack[len(fv.sideStack)-1], inst)
 	}
+}
+
+// boundLoadFacts: heap closure for references read under a binder (where the ordinary type facts of a load are
+// not assumed): a reference stored in the heap of a state was allocated before that state. Stated once per heap
+// version and allocation counter as a quantified fact triggered by reads of that version.
+func (fv *FuncVC) boundLoadFacts(v Val, t types.Type, st *State, a *Addr) {
+	if fv.binderDepth == 0 || st == nil || st.cnt == "" {
+		return
+	}
+	if _, ok := t.Underlying().(*types.Pointer); !ok {
+		return
+	}
+	if len(v.C) != 1 || !boundVarRe.MatchString(v.C[0]) {
+		return
+	}
+	var h, ax string
+	switch a.Kind {
+	case AField:
+		h = fv.m.heapGet(st, fv.m.FieldKeys(a.StructT, a.Field)[0])
+		ax = fmt.Sprintf("(forall ((o!c Int)) (! (and (>= (select %s o!c) 0) (< (select %s o!c) %s)) :pattern ((select %s o!c))))", h, h, st.cnt, h)
+	case AElem:
+		h = fv.m.heapGet(st, fv.m.ElemKeys(a.T)[0])
+		ax = fmt.Sprintf("(forall ((o!c Int) (i!c Int)) (! (and (>= (select (select %s o!c) i!c) 0) (< (select (select %s o!c) i!c) %s)) :pattern ((select (select %s o!c) i!c))))", h, h, st.cnt, h)
+	default:
+		return
+	}
+	if fv.closureDone == nil {
+		fv.closureDone = map[string]bool{}
+	}
+	if fv.closureDone[h+"|"+st.cnt] {
+		return
+	}
+	fv.closureDone[h+"|"+st.cnt] = true
+	fv.ctx.axioms = append(fv.ctx.axioms, ax)
 }
